@@ -156,6 +156,34 @@ func (w *world) history(steps int, keyChanging bool) {
 				}
 				s.qers = nq
 			}
+		case choice == 8 && r.Intn(2) == 0: // updates of rules the session does not have: skipped, nothing is written for them
+			f := s.fars[0]
+			f.ID = 70 + uint32(r.Intn(5))
+			q := sysh.QerIE{ID: 80 + uint32(r.Intn(5)), Qfi: 3, Mbr: [2]uint64{111, 222}}
+			p := s.pdrs[0]
+			p.ID = uint16(90 + r.Intn(5))
+			var m modReq
+			switch r.Intn(4) {
+			case 0:
+				m.uf = []sysh.FarIE{f}
+			case 1:
+				m.uq = []sysh.QerIE{q}
+			case 2:
+				m.up = []sysh.PdrIE{p}
+			default:
+				m.uf, m.uq = []sysh.FarIE{f}, []sysh.QerIE{q}
+			}
+			w.mod(s.a, s.up, m, "update-unknown-rule")
+		case choice == 8 && r.Intn(3) == 0: // a modification refused AFTER it removed rules (unknown Remove ID last): the stored session must be untouched
+			var m modReq
+			if len(s.pdrs) > 1 {
+				m.rp = []uint32{uint32(s.pdrs[r.Intn(len(s.pdrs)-1)].ID)} // not the last one
+			}
+			if len(s.fars) > 1 && r.Intn(2) == 0 {
+				m.rf = []uint32{s.fars[0].ID}
+			}
+			m.rq = []uint32{999}
+			w.mod(s.a, s.up, m, "remove-then-refused")
 		case choice == 8: // requests that must be rejected and write nothing
 			switch r.Intn(3) {
 			case 0:
